@@ -13,7 +13,11 @@ def wrap_impure(expr, invoke, state):
         # only valid for the state it was computed in. The state is stored
         # along with the value to keep its id() from being reused.
         value = invoke(*args)
-        expr.values[id(state)] = (state, value)
+        # A value that is not known yet (e.g. an address relative to a link
+        # base that is still to be set) has to be recomputed later, when more
+        # is known about its parts
+        if not isinstance(value, BaseDeferred):
+            expr.values[id(state)] = (state, value)
         return value
     return fn
 
